@@ -258,9 +258,10 @@ func checkTemplate(c *Ctx, r *Report, format string, ti tmplInfo, spec map[strin
 }
 
 func checkC02(c *Ctx, r *Report) {
-	r.Rules = []string{"F3 template wiring (deb, ipk, apk)", "F4 rpm metadata wiring", "F5 archlinux key/value wiring", "F5b deb triggers / changelog extras", "D3 GOARCH tables vs documentation, override precedence", "F6 version slot depends on every configured component", "ipk reserved field names", "F5b-text rpm changelog text is the rendered notes (TrimSpace only)", "F3-funcs template helper functions write through none of their list arguments", "F6-parsed no branch on the value of a parsed epoch/release"}
+	r.Rules = []string{"F3 template wiring (deb, ipk, apk)", "F4 rpm metadata wiring", "F5 archlinux key/value wiring", "F5b deb triggers / changelog extras", "D3 GOARCH tables vs documentation, override precedence", "F6 version slot depends on every configured component", "ipk reserved field names", "F5b-text rpm changelog text is the rendered notes (TrimSpace only)", "F3-funcs template helper functions write through none of their list arguments", "F6-parsed no branch on the value of a parsed epoch/release", "F3-text the description meets only white-space trimming and line-separator operations", "F4-verbatim rpm relation items reach the relation parser as configured", "arch-W3-idempotent architecture tables are chain-free (imported from C11)"}
 	r.Explanation = "Wiring of control metadata decided from source. (F3) the deb, ipk and apk control templates — the string constants reaching Template.Parse — are parsed with text/template/parse (never executed) and flattened to label -> fields printed and fields guarding; each label must be fed from exactly the configuration field(s) the statement pairs it with (all relation kinds, identity fields, format extras), optional labels guarded by their own field. (F4) every field of the rpmpack.RPMMetaData literal and (F5) every key of the archlinux key/value writer must derive (field provenance over go/ssa) from exactly its configuration field(s). (F5b) deb trigger directives pair with the like-named trigger lists, the triggers member is written only when non-empty, changelog entries only behind a non-empty changelog setting. (D3) the five GOARCH tables are extracted from the package initialisers and every row of www/docs/goarch-to-pkg.md must hold in code; with a format-specific architecture configured the stored architecture is that value verbatim (abstract evaluation). (F6) with each version component in turn fixed non-empty, the string reaching the rpm Version field, the apk pkgver and the archlinux pkgver must depend on it on every live path. Rendering of concrete text (multi-line descriptions, escaping) is not decided."
 	r.Explanation += " (F5b-text) between the rendered changelog notes and rpm's changelog-text tag only strings.TrimSpace may sit. (F3-funcs) functions registered in the control templates' FuncMaps write through none of their list arguments. (F6-parsed) no branch depends on the value of an epoch/release parsed as an integer."
+	r.Explanation += " (F3-text) in every description helper of a control template, and wherever Info.Description is handed to a library function, only white-space trimming and split/join/replace at constant line separators occur - word-level rewriting changes the synopsis. (F4-verbatim) the string handed to rpmpack's relation parser is a load of a list element, through conversions and phis only. (arch-W3-idempotent) the architecture tables are applied by the file-name function and again by Package: a table with a chain a->b->c states c for a configured a."
 	r.Assumptions = []string{
 		"text/template renders an action with the value of the field chain it names; join/multiline/nonEmpty helpers are not analysed for arbitrary text",
 		"rpmpack writes each RPMMetaData field under its like-named header tag",
@@ -449,6 +450,209 @@ func checkC02(c *Ctx, r *Report) {
 		}
 	}
 	checkDescriptionHelpers(c, r, pa)
+	checkDescriptionText(c, r, pa)
+	checkRelationsVerbatim(c, r)
+	// the architecture tables are applied more than once on the way to the
+	// metadata (file name, then package): a chain a -> b -> c in a table makes
+	// the metadata state c for a configured a (shared with C11-W3)
+	tmpW := newReport("tmp")
+	checkPackagerStores(c, tmpW)
+	nW := 0
+	for _, o := range tmpW.Obls {
+		if o.Rule == "W3-idempotent" && strings.Contains(o.Construct, "Info.Arch") {
+			o.Rule = "arch-W3-idempotent"
+			r.Obls = append(r.Obls, o)
+			nW++
+		}
+	}
+	r.Floor("arch-W3-idempotent", nW, 4)
+}
+
+// descTextAllowed: library calls that may touch the description on its way
+// into the metadata - they remove surrounding white space or work on the line
+// separators, and leave the characters of a line as configured.
+func descTextAllowed(call *ssa.Call) (bool, string) {
+	o := calleeObj(call)
+	if o == nil || o.Pkg() == nil {
+		return true, ""
+	}
+	pkg := o.Pkg().Path()
+	if pkg != "strings" && pkg != "bytes" && pkg != "regexp" && pkg != "unicode" && pkg != "golang.org/x/text/cases" {
+		return true, ""
+	}
+	q := qualifiedName(o)
+	switch o.Name() {
+	case "TrimSpace", "Trim", "TrimRight", "TrimLeft", "TrimSuffix", "TrimPrefix", "HasPrefix", "HasSuffix", "Contains", "Index", "IndexByte", "Join", "NewReader", "NewBuffer", "NewBufferString", "NewScanner", "Count", "EqualFold":
+		return true, ""
+	case "Split", "SplitN", "SplitAfter", "SplitAfterN", "ReplaceAll", "Replace":
+		// only on the line separator
+		if len(call.Call.Args) >= 2 {
+			sep := call.Call.Args[1]
+			if cv, ok := sep.(*ssa.Convert); ok {
+				sep = cv.X
+			}
+			if k, ok := sep.(*ssa.Const); ok && k.Value != nil && isConstString(k) {
+				if t := constString(k); t == "\n" || t == "\r\n" || t == "\r" {
+					return true, ""
+				}
+				return false, fmt.Sprintf("%s on %q", q, constString(k))
+			}
+		}
+		return false, q + " on a separator that is not a constant line separator"
+	}
+	if _, isMethod := o.Type().(*types.Signature); isMethod && o.Type().(*types.Signature).Recv() != nil {
+		// methods of strings.Builder / bytes.Buffer / strings.Reader: writes and reads
+		rt := types.TypeString(derefType(o.Type().(*types.Signature).Recv().Type()), nil)
+		if rt == "strings.Builder" || rt == "bytes.Buffer" || rt == "strings.Reader" || rt == "bytes.Reader" {
+			return true, ""
+		}
+	}
+	return false, q
+}
+
+// checkDescriptionText (F3-text): "a description whose first line is intact":
+// on the way from Info.Description into the metadata the text only meets
+// functions that trim surrounding white space or split/join/replace at line
+// separators. Word-level rewriting (strings.Fields, Map, ToLower, a Replacer,
+// a regular expression ...) changes characters inside a line.
+func checkDescriptionText(c *Ctx, r *Report, pa *provAnalysis) {
+	n := 0
+	for _, pk := range c.Packagers {
+		if pk.Format == "" {
+			continue
+		}
+		reach := c.Reach(pk.Package)
+		scope := map[*ssa.Function]string{}
+		for _, ti := range templateConstants(c, reach) {
+			for _, f := range templateFuncs(c, ti.Fn, "multiline") {
+				scope[f] = "the template's description helper"
+			}
+		}
+		// module functions handed the description itself
+		for _, fn := range sortedFuncs(c, reach) {
+			if c.funcPkgPath(fn) != pk.PkgPath {
+				continue
+			}
+			forEachInstr(fn, func(in ssa.Instruction) {
+				call, ok := in.(*ssa.Call)
+				if !ok {
+					return
+				}
+				direct := false
+				for _, a := range call.Call.Args {
+					if ld, ok := a.(*ssa.UnOp); ok && ld.Op == token.MUL {
+						if pth, root := addrPath(ld.X); root != nil && pth == "Description" && isPtrToNamed(root.Type(), modPath, "Info") {
+							direct = true
+						}
+					}
+				}
+				if !direct {
+					return
+				}
+				if sc := call.Call.StaticCallee(); sc != nil && c.isModuleFunc(sc) && len(sc.Blocks) > 0 {
+					if _, seen := scope[sc]; !seen {
+						scope[sc] = "handed Info.Description in " + c.funcKey(fn)
+					}
+					return
+				}
+				n++
+				ok2, what := descTextAllowed(call)
+				r.Check(ok2, "F3-text", fmt.Sprintf("%s: Info.Description handed to %s in %s", pk.Format, shortName(qualifiedName(calleeObj(call))), c.funcKey(fn)), c.instrPos(call),
+					"the description meets "+what+": only white-space trimming and operations on line separators keep every line as configured")
+			})
+		}
+		var fns []*ssa.Function
+		for f := range scope {
+			fns = append(fns, f)
+		}
+		sort.Slice(fns, func(i, j int) bool { return fns[i].Pos() < fns[j].Pos() })
+		for _, f := range fns {
+			n++
+			bad := ""
+			var at ssa.Instruction
+			forEachInstr(f, func(in ssa.Instruction) {
+				call, ok := in.(*ssa.Call)
+				if !ok || bad != "" {
+					return
+				}
+				if ok2, what := descTextAllowed(call); !ok2 {
+					bad, at = what, in
+				}
+			})
+			pos := c.pos(f.Pos())
+			if at != nil {
+				pos = c.instrPos(at)
+			}
+			r.Check(bad == "", "F3-text", fmt.Sprintf("%s: description helper %s (%s)", pk.Format, c.funcKey(f), scope[f]), pos,
+				"the helper applies "+bad+" to the text: only white-space trimming and operations on line separators keep the synopsis and every further line as configured")
+		}
+	}
+	r.Floor("F3-text", n, 4)
+}
+
+// checkRelationsVerbatim (F4-verbatim): every string handed to rpmpack's
+// relation parser is an element of a configured relation list as it stands -
+// loads, conversions and phis only, no call in between.
+func checkRelationsVerbatim(c *Ctx, r *Report) {
+	pk := c.PackagerByFormat("rpm")
+	if pk == nil {
+		return
+	}
+	n := 0
+	for _, fn := range sortedFuncs(c, c.Reach(pk.Package)) {
+		if c.funcPkgPath(fn) != pk.PkgPath {
+			continue
+		}
+		forEachInstr(fn, func(in ssa.Instruction) {
+			call, ok := in.(*ssa.Call)
+			if !ok || !calleeIs(call, rpmpackPath, "Relations", "Set") {
+				return
+			}
+			n++
+			arg := call.Call.Args[len(call.Call.Args)-1]
+			bad := ""
+			seen := map[ssa.Value]bool{}
+			var walk func(v ssa.Value, d int)
+			walk = func(v ssa.Value, d int) {
+				if d > 8 || seen[v] || bad != "" {
+					return
+				}
+				seen[v] = true
+				switch x := v.(type) {
+				case *ssa.UnOp:
+					if x.Op == token.MUL {
+						return // a load: element or field
+					}
+					bad = x.String()
+				case *ssa.Extract:
+					if _, isNext := x.Tuple.(*ssa.Next); isNext {
+						return
+					}
+					bad = x.String()
+				case *ssa.Phi:
+					for _, e := range x.Edges {
+						walk(e, d+1)
+					}
+				case *ssa.Convert:
+					walk(x.X, d+1)
+				case *ssa.ChangeType:
+					walk(x.X, d+1)
+				case *ssa.Parameter, *ssa.Const:
+				case *ssa.Call:
+					bad = "the result of " + shortName(valueExpr(c, x, 0))
+					if o := calleeObj(x); o != nil && qualifiedName(o) != "" {
+						bad = "the result of " + qualifiedName(o)
+					}
+				default:
+					bad = v.String()
+				}
+			}
+			walk(arg, 0)
+			r.Check(bad == "", "F4-verbatim", fmt.Sprintf("rpm: relation item handed to the relation parser in %s", c.funcKey(fn)), c.instrPos(call),
+				"the item parsed is "+bad+": a relation rewritten on the way (brackets, operators) is no longer the configured relation - rich dependencies and sonames contain parentheses")
+		})
+	}
+	r.Floor("F4-verbatim", n, 1)
 }
 
 // checkDescriptionHelpers (F3-desc): in the deb/ipk description helper a
